@@ -150,6 +150,33 @@ def run(rep, tier):
         rep.ob(rf, "helper-call-site", at_call == 0, "rsp (mod 16) at the `call rax` of a helper call, entry rsp = 8 (mod 16)",
                expected=0, found=at_call)
 
+    # ---------------- registration
+    F = cx.F
+    rr = rep.rule("R08.r", "register_helper(k, f) files f under k, unchanged, on every VM kind", floor=4)
+    import props.c10 as c10
+    for kind in c10.KINDS:
+        path = kind + "::register_helper"
+        fn = F.fns.get(path)
+        if not fn:
+            rep.ob(rr, path, False, "%s exists" % path, found="missing")
+            continue
+        ev = symex.Evaluator(F, opaque_calls=lambda q: q.endswith("::register_helper") and q != path)
+        args = [ev.sym_for("new_key", fn["thir"]["params"][1]["ty"]), ev.sym_for("new_fn", fn["thir"]["params"][2]["ty"])]
+        key, sv, outs = c10.run_method(ev, F, path, args)
+        ok, found = len(outs) == 1, "%d paths" % len(outs)
+        if ok:
+            calls = [e for e in outs[0][1].effects if e[0] == "call" and isinstance(e[1], str)]
+            ins = [e for e in calls if e[1].endswith("HashMap<K, V, S, A>::insert")]
+            dele = [e for e in calls if e[1].endswith("::register_helper")]
+            if ins:
+                ok = len(ins) == 1 and "helpers" in repr(ins[0][2][0]) and list(ins[0][2][1:3]) == args and not dele
+                found = "insert(%s, %s)" % tuple("argument" if x == a else repr(x)[:50] for x, a in zip(ins[0][2][1:3], args))
+            else:
+                ok = len(dele) == 1 and "'parent'" in repr(dele[0][2][0]) and list(dele[0][2][1:3]) == args
+                found = "delegates" if ok else "delegates with other arguments"
+            ok = ok and c10.result_kind(outs[0][0]) in ("Ok", "?")
+        rep.ob(rr, path, ok, path, expected="helpers.insert(key, function), or delegation with both arguments", found=found)
+
     # ---------------- Cranelift
     cc = Ctx(rep, "cranelift")
     cm = clmodel.ClModel(cc)
